@@ -18,7 +18,7 @@ import uci
 import vlib
 
 PID = "C05"
-SIZES = {"quick": dict(hooked=200, san=70, undist=24, files=8), "thorough": dict(hooked=8000, san=2500, undist=400, files=32)}
+SIZES = {"quick": dict(hooked=200, san=70, undist=24, files=8, limited=40), "thorough": dict(hooked=8000, san=2500, undist=400, files=32, limited=1500)}
 MOVE = r"(?:[a-h][1-8][a-h][1-8][qrbn]?|0000)"
 GRAMMAR = [
     ("id", re.compile(r"^id (name|author) .+$")),
@@ -173,13 +173,52 @@ def run(tier, seed):
         return {"e": "Undisturbed", "a": final_result(f1), "b": final_result(f2), "effect": effect,
                 "cmds": f"position {fen} | go depth {depth} | " + " | ".join(f"setoption name {n} value {v}" for n, v in opts) + " | (bestmove) | isready | go depth 3"}
     ures = vlib.pmap(uone, und, workers=12)
+    # ---------------- (d) a limited 'go' answers by itself (no 'stop'), whatever the order of its sub-commands, and inside its searchmoves set
+    LPOS = {"startpos": ["e2e4", "d2d4", "g1f3", "b1c3", "a2a3"], "startpos moves e2e4": ["e7e5", "c7c5", "g8f6", "b8c6"],
+            "startpos moves e2e4 e7e5": ["g1f3", "f1c4", "d2d4", "b1c3"], "fen 4k3/8/8/8/8/8/4P3/4K3 w - - 0 1": ["e2e4", "e2e3", "e1d2"]}
+    lim = []
+    for k in range(sz["limited"]):
+        cmds = []
+        for _ in range(rnd.randint(2, 5)):
+            pos = rnd.choice(sorted(LPOS))
+            sm = rnd.sample(LPOS[pos], rnd.randint(1, 2))
+            parts = rnd.choice([["depth %d" % rnd.randint(1, 4)], ["nodes %d" % rnd.randint(50, 3000)], ["movetime %d" % rnd.choice([20, 100, 200])],
+                                ["wtime 500", "btime 500"], ["wtime 300", "btime 300", "winc 10", "binc 10", "movestogo 5"],
+                                ["depth 3", "nodes 100000"], ["mate 1", "depth 3"]])
+            parts = list(parts)
+            rnd.shuffle(parts)
+            parts.insert(rnd.randint(0, len(parts)), "searchmoves " + " ".join(sm))
+            cmds.append((pos, "go " + " ".join(parts), sm))
+        lim.append((rnd.choice(sessions.NETS), cmds))
+
+    def lone(u):
+        net, cmds = u
+        eng = uci.Engine(os.path.join(bdir, "texel-" + net))
+        evs = []
+        try:
+            for pos, go, sm in cmds:
+                eng.send("position " + pos)
+                eng.send(go)
+                lines, ok = eng.read_until(lambda l: l.startswith("bestmove"), 90)
+                best = lines[-1].split()[1] if ok and lines else ""
+                evs.append({"e": "Limited", "cmds": f"position {pos} | {go}", "answered": bool(ok), "inSet": (best in sm) if ok else True, "best": best})
+                if not ok:
+                    break
+            eng.quit()
+        finally:
+            eng.kill()
+        return evs
+    lres = vlib.pmap(lone, lim, workers=8)
     with open(ufile, "a") as f:
         for e in ures:
             f.write(json.dumps(e) + "\n")
+        for evs in lres:
+            for e in evs:
+                f.write(json.dumps(e) + "\n")
     vlib.linear_check(rep, "Tr_Uci.tla", "Tr_Uci.cfg", "Tr_Uci_diag.cfg", [ufile], wd, context_marker='{"e": "Reset"',
                       keyfn=lambda line, names: "uci:" + ";".join(names) + ":" + (json.loads(line).get("script", json.loads(line).get("line", ""))[:100] if line.startswith("{") else ""))
     rep.cov.update({"hooked_sessions": len(jobs), "hooked_commands": ncmd, "sanitizer_sessions": len(sjobs), "output_lines_classified": nlines,
-                    "undisturbed_pairs": len(und)})
+                    "undisturbed_pairs": len(und), "limited_go_commands_in_every_subcommand_order": sum(len(e) for e in lres)})
     rep.cov["evaluations"] = len(jobs) + len(sjobs) + len(und)
     rep.cov["distinct_nontrivial"] = len({json.dumps(j[1]) for j in jobs}) + len({json.dumps(j[1]) for j in sjobs}) + len(und)
     rep.cov["rule"] = ("seeded UCI sessions of 3..60 commands over {uci, isready, setoption (all declared options, valid/out-of-range/unknown), ucinewgame, "
